@@ -1,0 +1,234 @@
+//! Verification hooks (cargo feature `verif-hooks`, off by default).
+//!
+//! A facade with plain-data views and entry points so that an external harness can drive the
+//! crate's private code (wire codec, TXT codec, validators, record lifetime arithmetic) on
+//! chosen inputs, plus a virtual clock. It contains no logic of its own beyond field copying.
+
+use std::net::IpAddr;
+use std::sync::atomic::{AtomicBool, AtomicU64, Ordering};
+
+static VIRTUAL_CLOCK_ON: AtomicBool = AtomicBool::new(false);
+static VIRTUAL_CLOCK: AtomicU64 = AtomicU64::new(0);
+
+/// Returns the virtual time if the virtual clock is enabled.
+pub fn virtual_now() -> Option<u64> {
+    if VIRTUAL_CLOCK_ON.load(Ordering::SeqCst) {
+        Some(VIRTUAL_CLOCK.load(Ordering::SeqCst))
+    } else {
+        None
+    }
+}
+
+/// `Some(t)`: enable the virtual clock and set it to `t`; `None`: back to the OS clock.
+pub fn set_virtual_now(t: Option<u64>) {
+    match t {
+        Some(t) => {
+            VIRTUAL_CLOCK.store(t, Ordering::SeqCst);
+            VIRTUAL_CLOCK_ON.store(true, Ordering::SeqCst);
+        }
+        None => VIRTUAL_CLOCK_ON.store(false, Ordering::SeqCst),
+    }
+}
+
+/// A TXT property as plain data: key, optional value bytes.
+pub type Prop = (String, Option<Vec<u8>>);
+
+#[derive(Debug, Clone, PartialEq, Eq)]
+pub enum PlainRData {
+    Addr(IpAddr),
+    Ptr(String),
+    Srv {
+        priority: u16,
+        weight: u16,
+        port: u16,
+        host: String,
+    },
+    Txt(Vec<u8>),
+    HInfo {
+        cpu: String,
+        os: String,
+    },
+    NSec {
+        next: String,
+        bitmap: Vec<u8>,
+    },
+    Other,
+}
+
+#[derive(Debug, Clone, PartialEq, Eq)]
+pub struct PlainRecord {
+    pub name: String,
+    pub new_name: Option<String>,
+    pub ty: u16,
+    pub class: u16,
+    pub flush: bool,
+    pub ttl: u32,
+    pub created: u64,
+    pub expires: u64,
+    pub refresh: u64,
+    pub if_index: u32,
+    pub rdata: PlainRData,
+}
+
+#[derive(Debug, Clone, PartialEq, Eq)]
+pub struct PlainQuestion {
+    pub name: String,
+    pub ty: u16,
+    pub class: u16,
+    pub flush: bool,
+}
+
+#[derive(Debug, Clone, PartialEq, Eq)]
+pub struct PlainMsg {
+    pub id: u16,
+    pub flags: u16,
+    pub num_questions: u16,
+    pub num_answers: u16,
+    pub num_authorities: u16,
+    pub num_additionals: u16,
+    pub questions: Vec<PlainQuestion>,
+    pub answers: Vec<PlainRecord>,
+    pub authorities: Vec<PlainRecord>,
+    pub additionals: Vec<PlainRecord>,
+}
+
+#[derive(Debug, Clone, PartialEq, Eq)]
+pub struct PlainOutgoing {
+    pub flags: u16,
+    pub id: u16,
+    pub multicast: bool,
+    pub questions: Vec<(String, u16)>,
+    pub answers: Vec<(PlainRecord, u64)>,
+    pub authorities: Vec<PlainRecord>,
+    pub additionals: Vec<PlainRecord>,
+}
+
+fn es<T>(r: crate::Result<T>) -> Result<T, String> {
+    r.map_err(|e| e.to_string())
+}
+
+// ---- wire codec -------------------------------------------------------------------------
+
+pub fn decode(data: Vec<u8>, if_index: u32) -> Result<PlainMsg, String> {
+    es(crate::dns_parser::verif_access::decode(data, if_index))
+}
+
+pub fn encode(o: &PlainOutgoing) -> Option<Vec<(Vec<u8>, Vec<(String, u16)>)>> {
+    crate::dns_parser::verif_access::encode(o)
+}
+
+pub fn parse_escaped_name(name: &str) -> Vec<String> {
+    crate::dns_parser::verif_access::parse_escaped_name(name)
+}
+
+// ---- record lifetime / relations --------------------------------------------------------
+
+pub fn expiration_time(created: u64, ttl: u32, percent: u32) -> u64 {
+    crate::dns_parser::verif_access::expiration_time(created, ttl, percent)
+}
+
+pub fn life_ops(p: &PlainRecord, ops: &[(String, u64, u64)]) -> Option<Vec<String>> {
+    crate::dns_parser::verif_access::life_ops(p, ops)
+}
+
+/// (matches, rrdata_match, compare as -1/0/1, suppressed_by_answer) of `a` against `b`.
+pub fn rel(a: &PlainRecord, b: &PlainRecord) -> Option<(bool, bool, i8, bool)> {
+    crate::dns_parser::verif_access::rel(a, b)
+}
+
+// ---- TXT --------------------------------------------------------------------------------
+
+pub fn txt_encode(v: &[Prop]) -> Vec<u8> {
+    crate::service_info::verif_access::txt_encode(v)
+}
+
+pub fn txt_decode(b: &[u8]) -> Vec<Prop> {
+    crate::service_info::verif_access::txt_decode(b)
+}
+
+pub fn txt_decode_unique(b: &[u8]) -> Vec<Prop> {
+    crate::service_info::verif_access::txt_decode_unique(b)
+}
+
+pub fn txt_get(v: &[Prop], key: &str) -> Option<Prop> {
+    crate::service_info::verif_access::txt_get(v, key)
+}
+
+/// `ServiceInfo::new` with the properties given as `Vec<TxtProperty>`; returns the stored
+/// properties and the TXT RDATA it would publish.
+pub fn service_info_new_txt(v: &[Prop]) -> Result<(Vec<Prop>, Vec<u8>), String> {
+    let props = crate::service_info::verif_access::to_props(v);
+    let info = es(crate::ServiceInfo::new(
+        "_verif._udp.local.",
+        "inst",
+        "host.local.",
+        "",
+        1,
+        props,
+    ))?;
+    let stored: Vec<crate::TxtProperty> = info.get_properties().iter().cloned().collect();
+    Ok((
+        crate::service_info::verif_access::from_props(&stored),
+        info.generate_txt(),
+    ))
+}
+
+/// `ServiceInfo::new` with the properties given as a slice of `(key, value)` string tuples.
+pub fn service_info_new_txt_tuples(v: &[(String, String)]) -> Result<(Vec<Prop>, Vec<u8>), String> {
+    let info = es(crate::ServiceInfo::new(
+        "_verif._udp.local.",
+        "inst",
+        "host.local.",
+        "",
+        1,
+        v,
+    ))?;
+    let stored: Vec<crate::TxtProperty> = info.get_properties().iter().cloned().collect();
+    Ok((
+        crate::service_info::verif_access::from_props(&stored),
+        info.generate_txt(),
+    ))
+}
+
+// ---- names and validators ---------------------------------------------------------------
+
+pub fn escape_instance_name(name: &str) -> String {
+    crate::service_info::verif_access::escape_instance_name(name)
+}
+
+pub fn normalize_hostname(name: String) -> String {
+    crate::service_info::verif_access::normalize_hostname(name)
+}
+
+pub fn split_sub_domain(domain: &str) -> (String, Option<String>) {
+    let (a, b) = crate::service_info::split_sub_domain(domain);
+    (a.to_string(), b.map(str::to_string))
+}
+
+pub fn check_service_name_length(ty_domain: &str, limit: u8) -> Result<(), String> {
+    es(crate::service_daemon::verif_access::check_service_name_length(ty_domain, limit))
+}
+
+pub fn check_domain_suffix(name: &str) -> Result<(), String> {
+    es(crate::service_daemon::verif_access::check_domain_suffix(name))
+}
+
+pub fn check_service_name(fullname: &str) -> Result<(), String> {
+    es(crate::service_daemon::verif_access::check_service_name(fullname))
+}
+
+pub fn check_hostname(hostname: &str) -> Result<(), String> {
+    es(crate::service_daemon::verif_access::check_hostname(hostname))
+}
+
+pub fn valid_instance_name(name: &str) -> bool {
+    crate::service_daemon::verif_access::valid_instance_name(name)
+}
+
+pub fn name_change(original: &str) -> String {
+    crate::service_daemon::verif_access::name_change(original)
+}
+
+pub fn hostname_change(original: &str) -> String {
+    crate::service_daemon::verif_access::hostname_change(original)
+}
